@@ -19,7 +19,7 @@ LEVEL_TEXT = ("Static structural proof of necessary conditions: (R8.1) in the co
               "with their published codes and reachable from Sidecar.validate; (R8.4) error contexts balanced. Totality "
               "beyond explicit type guards, 'valid sidecar => no error' and reference expansion over all combinations "
               "are NOT decided.")
-LEVEL_EXTRA = "Added after the seeded evaluation: (R8.2) the table indexed by screened reference names is built from the whole sidecar, unfiltered; (R8.5) one reference pattern in all passes; (R8.6) '#' counted on a copy with definitions removed and Def-expand shrunk; (R8.7) results of per-entry loops are accumulated, never last-wins (one frozen exception)."
+LEVEL_EXTRA = "Added after the seeded evaluation: (R8.2) the table indexed by screened reference names is built from the whole sidecar, unfiltered; (R8.5) one reference pattern in all passes; (R8.6) '#' counted on a copy with definitions removed and Def-expand shrunk; (R8.7) results of per-entry loops are accumulated, never last-wins (one frozen exception). (R8.8) no issue list is discarded inside the sidecar validator."
 
 ROWS = [
     {"key": "SidecarErrors.BLANK_HED_STRING", "code": None},
@@ -248,6 +248,14 @@ def run(ctx):
         "A fault in any entry of a column but the last one (unknown, nested or self reference, malformed braces) is then "
         "not recorded for the column-level reference rules.")
     ctx.floor("R8.7", "loops in the sidecar validator", n_loops, 6)
+
+    # ---------------- R8.8: nothing a callee reports is thrown away
+    ctx.rule("R8.8", "no issue list returned inside the sidecar validator / Sidecar.validate is discarded")
+    from sa.issues import check_no_dropped_issues
+    sc8 = [f for f in prog.functions.values() if f.module.name == "hed.validator.sidecar_validator"] + \
+          [m for m in prog.find_class("Sidecar").all_methods if m.name in ("validate", "extract_definitions", "get_def_dict")]
+    ns8 = check_no_dropped_issues(ctx, "R8.8", sc8)
+    ctx.floor("R8.8", "issue-producing calls in the sidecar validator", ns8, 8)
 
     # ---------------- R8.3
     sc = prog.find_class("Sidecar")
